@@ -466,25 +466,42 @@ func (s lockState) holdsAll(needW bool) (ssa.Value, bool) {
 	return nil, false
 }
 
-// isLocalFresh: v derives only from objects allocated in this function (not yet published):
-// no parameter, global or free variable in its address chain.
+// isLocalFresh: the address chain of v (loads, element and field addressing) ends in an object
+// allocated in this function (make/new/composite literal), i.e. one not yet published.
 func isLocalFresh(v ssa.Value) bool {
-	sl := core.BackwardSlice(v, core.SliceOpts{NoCallArgs: true, Stop: func(x ssa.Value) bool {
-		_, isCall := x.(*ssa.Call)
-		return isCall
-	}})
-	fresh := false
-	for x := range sl {
-		switch y := x.(type) {
-		case *ssa.Parameter, *ssa.Global, *ssa.FreeVar:
-			return false
-		case *ssa.Call:
-			if b, ok := y.Common().Value.(*ssa.Builtin); !ok || (b.Name() != "len" && b.Name() != "cap") {
+	for i := 0; i < 12; i++ {
+		switch x := v.(type) {
+		case *ssa.MakeSlice, *ssa.MakeMap:
+			return true
+		case *ssa.Alloc:
+			return true
+		case *ssa.IndexAddr:
+			v = x.X
+		case *ssa.FieldAddr:
+			v = x.X
+		case *ssa.Slice:
+			v = x.X
+		case *ssa.UnOp:
+			if x.Op != token.MUL {
 				return false
 			}
-		case *ssa.MakeSlice, *ssa.Alloc, *ssa.MakeMap:
-			fresh = true
+			if a, ok := x.X.(*ssa.Alloc); ok {
+				// a local variable: every value stored into it must be fresh
+				st := core.StoresTo(a)
+				if len(st) == 0 {
+					return true
+				}
+				for _, sv := range st {
+					if !isLocalFresh(sv) {
+						return false
+					}
+				}
+				return true
+			}
+			v = x.X
+		default:
+			return false
 		}
 	}
-	return fresh
+	return false
 }
